@@ -64,6 +64,16 @@ fn slot_sets(max: usize) -> Vec<Vec<(usize, usize)>> {
             out.push((0..9).filter(|i| mask & (1 << i) != 0).map(|i| all[i]).collect());
         }
     }
+    // the same name defined twice in one file (e.g. a module-level fixture and a class-level
+    // override): every smaller set with one of its slots repeated, the copy written later in the file
+    let plain: Vec<Vec<(usize, usize)>> = out.clone();
+    for set in plain.iter().filter(|s| s.len() < max) {
+        for e in set {
+            let mut d = set.clone();
+            d.push(*e);
+            out.push(d);
+        }
+    }
     out
 }
 
